@@ -71,6 +71,13 @@ TwoWayPost ==
 OnlyTwoWay == \A i \in 1..Len(hist) : hist[i].op \in {"AddType", "AddTwoWayRel", "AddAttr", "RemoveAttr"}
 CoherentAfterTwoWay == OnlyTwoWay => Offending(types) = {}
 
+\* bound for the universes with two relationship names on two types (cfg "conf"):
+\* at most three fields in the whole schema
+FewFields == LET n[i \in 0..Len(types)] ==
+                   IF i = 0 THEN 0
+                   ELSE n[i - 1] + Cardinality(DOMAIN types[i].attrs) + Cardinality(DOMAIN types[i].rels)
+             IN n[Len(types)] <= 3
+
 -----------------------------------------------------------------------------
 (* (A) generation: every distinct state with the first history reaching it *)
 EmitAlpha == PrintT(<<"ALPHA", ToJson(SetToSeq(Alphabet))>>)
